@@ -19,7 +19,22 @@ func (p *Prog) BuildBindings() {
 	bindings = map[*ssa.Parameter]ssa.Value{}
 	sites := map[*ssa.Function][]ssa.CallInstruction{}
 	taken := map[*ssa.Function]bool{}
+	// only live code counts: a call from a function nothing reaches (an unused sibling kept around)
+	// does not make a helper "shared"
+	var roots []*ssa.Function
+	if f := p.Func("", "main"); f != nil {
+		roots = append(roots, f)
+	}
+	for _, g := range p.PkgFuncs("patch") {
+		if g.Object() != nil && g.Object().Exported() {
+			roots = append(roots, g)
+		}
+	}
+	live := p.ReachableModuleFuncs(roots...)
 	for _, g := range p.ModuleFuncs() {
+		if len(roots) > 0 && !live[g] && !(g.Parent() != nil && live[g.Parent()]) {
+			continue
+		}
 		for _, b := range g.Blocks {
 			for _, in := range b.Instrs {
 				call, isCall := in.(ssa.CallInstruction)
